@@ -40,11 +40,28 @@ def rand_format(rng):
     return vp, pcm
 
 
+def sibling_format(rng, vp, pcm):
+    """the same format with ONE signal-range value changed (anything remembered from the previous format must not leak)"""
+    vp = copy.deepcopy(vp)
+    k = rng.choice(["color_diff_excursion", "color_diff_excursion", "luma_excursion", "color_diff_offset", "luma_offset"])
+    vp[k] = max(1, int(vp[k]) // rng.choice([2, 4, 16])) if "excursion" in k else int(vp[k]) // 2
+    if int(vp[k]) == 0 and "excursion" in k:
+        vp[k] = 1
+    return vp, pcm
+
+
 def check_generator(name, vp, pcm):
     from vc2_conformance import picture_generators as PG
-    from vc2_conformance.dimensions_and_depths import compute_dimensions_and_depths
 
-    dd = compute_dimensions_and_depths(vp, pcm)
+    # the coded size and depths, computed here (12.? picture_dimensions / video_depth in words): luma = frame, colour
+    # difference halved horizontally for 4:2:2 and both ways for 4:2:0, heights halved for fields; depth = bits of the excursion
+    cdf = int(vp["color_diff_format_index"])
+    lw, lh = vp["frame_width"], vp["frame_height"]
+    cw, ch = (lw // 2 if cdf >= 1 else lw), (lh // 2 if cdf == 2 else lh)
+    if int(pcm) == 1:
+        lh, ch = lh // 2, ch // 2
+    dl, dc = int(vp["luma_excursion"]).bit_length(), int(vp["color_diff_excursion"]).bit_length()
+    dd = {"Y": (lw, lh, dl, None), "C1": (cw, ch, dc, None), "C2": (cw, ch, dc, None)}
     pics = list(getattr(PG, name)(vp, pcm))
     if len(pics) < 1:
         return "%s yields no picture" % name
@@ -179,8 +196,13 @@ def real_shapes(name, n, vp, pcm):
 
 def ps_lines(rng, n, count):
     lines, exp = [], []
-    for _ in range(n):
-        vp, pcm = rand_any_format(rng)
+    prev = None
+    for i in range(n):
+        if prev is not None and i % 3 == 2:
+            vp, pcm = sibling_format(rng, *prev)     # (anything remembered from the previous format must not leak)
+        else:
+            vp, pcm = rand_any_format(rng)
+        prev = (vp, pcm)
         for name in GENERATORS:
             frames = rng.choice([0, 1, 1, 2, 3, 10]) if name in ("moving_sprite", "white_noise") else 1
             out, err = real_shapes(name, frames, vp, pcm)
@@ -220,8 +242,10 @@ class Prop(object):
         ctx.diff("ps the five REAL generators on regular AND irregular formats (odd sizes, any pixel aspect ratio, excursions from 0, 0-10 frames): "
                  "numbers, component shapes, largest producible samples, or which call raises: model == real", lines, exp)
         ctx.corr_names.append("the five REAL generators on regular formats: count, parity, numbering, sizes, sample ranges")
-        for _ in range(ctx.n(120, 2500)):
-            vp, pcm = rand_format(rng)
+        prev = None
+        for i in range(ctx.n(120, 2500)):
+            vp, pcm = sibling_format(rng, *prev) if (prev is not None and i % 3 == 2) else rand_format(rng)
+            prev = (vp, pcm)
             for name in GENERATORS:
                 try:
                     why = check_generator(name, vp, pcm)
@@ -238,15 +262,20 @@ class Prop(object):
 
     def search(self, ctx):
         rng = ctx.rng("search")
-        for _ in range(ctx.n(400, 5000)):
-            vp, pcm = rand_format(rng)
+        prev = None
+        for i in range(ctx.n(400, 5000)):
+            vp, pcm = sibling_format(rng, *prev) if (prev is not None and i % 3 == 2) else rand_format(rng)
             for name in GENERATORS:
                 try:
                     why = check_generator(name, vp, pcm)
                 except Exception as e:  # noqa
                     why = "%s raised %s: %s" % (name, type(e).__name__, str(e)[:160])
                 if why:
-                    return {"format": describe(vp, pcm), "generator": name, "why": why}
+                    r = {"format": describe(vp, pcm), "generator": name, "why": why}
+                    if prev is not None:
+                        r["previous_format"] = describe(*prev)   # (the failure may depend on what was generated just before)
+                    return r
+            prev = (vp, pcm)
         return None
 
     def replay(self, ctx, path):
@@ -261,6 +290,13 @@ class Prop(object):
             print("replay names broken obligations only:", r.get("broken_obligations"))
             return 1
         base = copy.deepcopy(CF["video_parameters"])
+        if fi.get("previous_format"):
+            pv = VideoParameters((k, type(base[k])(v)) for k, v in fi["previous_format"]["video_parameters"].items())
+            for name in GENERATORS:
+                try:
+                    check_generator(name, pv, PictureCodingModes(fi["previous_format"]["pcm"]))
+                except Exception:  # noqa
+                    pass
         vp = VideoParameters((k, type(base[k])(v)) for k, v in fi["format"]["video_parameters"].items())
         why = check_generator(fi["generator"], vp, PictureCodingModes(fi["format"]["pcm"]))
         print("replay ->", why or "property holds")
